@@ -396,9 +396,10 @@ M('E17', 'src/xdoctest/doctest_example.py', "        self.global_namespace.clear
   ['C11'], 'doctest assignments written back to the module globals')
 
 
-M('U4', 'src/xdoctest/doctest_example.py', "        with _restored_last_value(), warnings.catch_warnings(record=True) as self.warn_list:\n            for partx, part in enumerate(self._parts):",
-  "        self.warn_list = []\n        with _restored_last_value():\n            for partx, part in enumerate(self._parts):", ['C12', 'C11'], 'catch_warnings around the part loop dropped')
-M('F48R', 'src/xdoctest/doctest_example.py', "        with _restored_last_value(), warnings.catch_warnings(record=True) as self.warn_list:", "        with warnings.catch_warnings(record=True) as self.warn_list:", ['C11'], 'F48 repair reverted: builtins._ set by a doctest stays behind')
+M('U4', 'src/xdoctest/doctest_example.py', "        with warnings.catch_warnings(record=True) as self.warn_list:\n            for partx, part in enumerate(self._parts):",
+  "        self.warn_list = []\n        if True:\n            for partx, part in enumerate(self._parts):", ['C12', 'C11'], 'catch_warnings around the part loop dropped')
+M('F48R', 'src/xdoctest/doctest_example.py', "                            last_value_guard = _restored_last_value()", "                            last_value_guard = contextlib.nullcontext()", ['C11'], 'F48 repair reverted: builtins._ set by a doctest stays behind')
+M('F48bR', 'src/xdoctest/doctest_example.py', "        with warnings.catch_warnings(record=True) as self.warn_list:\n            for partx, part in enumerate(self._parts):", "        with _restored_last_value(), warnings.catch_warnings(record=True) as self.warn_list:\n            for partx, part in enumerate(self._parts):", ['C11'], 'F48b repair reverted: builtins._ is restored when the whole doctest ends, a translation function installed by the module under test is lost after its first doctest')
 
 
 M('I2', 'src/xdoctest/utils/util_import.py', """        # Check for directory-based modules (has presidence over files)
